@@ -34,6 +34,7 @@ func checkC14(c *Ctx) {
 	r.NotDecided = []string{"fingerprint collisions", "truncated response bodies", "equality of transferred entries (C13)"}
 	c.c14Export()
 	c.c14Import()
+	c.c14AddCache()
 	c.c14Register()
 	c.c14InitRegistration()
 	c.c14Determinism()
@@ -348,6 +349,42 @@ func (c *Ctx) c14Import() {
 		r.Unknown("R14.2", "HTTPTransfer.Import", fmt.Sprintf("vacuous: %d restoring iterations, %d skipping iterations", nRestore, nSkip))
 	} else if !hasViolation(r.Obls, "R14.2", "HTTPTransfer.Import") {
 		r.OK("R14.2", "HTTPTransfer.Import", fmt.Sprintf("%d restoring iterations gated by status 200, %d skipping", nRestore, nSkip))
+	}
+}
+
+// c14AddCache: "every registered cache": AddCache files the cache it was given under the name it was given, on every path.
+func (c *Ctx) c14AddCache() {
+	r := c.R
+	name := "HTTPTransfer.AddCache"
+	e, paths, fn, err := c.runFunc(name, transferPolicy())
+	if err != nil || fn == nil {
+		r.Unknown("R14.2", name, "does not resolve")
+		return
+	}
+	sig := fn.Type().(*types.Signature)
+	if sig.Params().Len() != 2 {
+		r.Unknown("R14.2", name, "unexpected signature")
+		return
+	}
+	pName, pCache := e.Params[sig.Params().At(0)], e.Params[sig.Params().At(1)]
+	bad := false
+	for _, p := range paths {
+		if p.Panic {
+			continue
+		}
+		ok := false
+		for _, ev := range p.Events {
+			if ev.Kind == pw.EvMapInsert && ev.Recv != nil && ev.Recv.Field != nil && fname(ev.Recv.Field) == "caches" && ev.Key == pName && ev.Value == pCache {
+				ok = true
+			}
+		}
+		if !ok && !bad {
+			bad = true
+			r.Bad("R14.2", name, "cache-not-registered", c.Pos(p.RetPos), "AddCache returns without filing the given cache under the given name: Export does not know it and Import never fills it", shortTrace(p))
+		}
+	}
+	if !bad {
+		r.OK("R14.2", name, fmt.Sprintf("%d paths file the given cache under the given name", len(paths)))
 	}
 }
 
